@@ -1766,7 +1766,8 @@ def GET_EYE(
         # coordinate, so the result does not depend on the units (scale/offset) of the signal,
         # and then we get the centroid (t,y) of each cluster
         labels = kmeans.fit(ty[:, :1]).labels_
-        ty_c = np.array([ty[labels == k].mean(axis=0) for k in range(2)])
+        # (a cluster is empty when all the points share one time coordinate: both centroids are then that single crossing)
+        ty_c = np.array([ty[labels == k].mean(axis=0) if np.any(labels == k) else ty.mean(axis=0) for k in range(2)])
 
         left = np.argmin(ty_c[:,0])
         right = np.argmax(ty_c[:,0])
@@ -1817,14 +1818,25 @@ def GET_EYE(
         instant = np.abs(t - t_center).argmin() - sps // 2 + 1
     eye_dict["i"] = instant
 
+    # Samples inside the central eye opening
+    span = (t_span0 < t) & (t < t_span1)
+
+    # The 2-slot window holds a second eye opening, one slot away from the central one (split over the two edges of
+    # the window). If one of the two levels never shows up in the central opening (e.g. PPM data whose pulses all
+    # fall on even slots), the levels are measured in that other opening.
+    if not (input[span] > y_center).any() or not (input[span] < y_center).any():
+        other = np.abs((t - t_center) % 2 - 1) < 0.05 * t_dist
+        if (input[other] > y_center).any() and (input[other] < y_center).any():
+            span = other
+
     # We obtain the upper cluster
-    cond = (input > y_center) & ((t_span0 < t) & (t < t_span1))
+    cond = (input > y_center) & span
     y_top = input.copy()
     y_top[~cond]=np.nan
     eye_dict["y_top"] = y_top
 
     # We obtain the lower cluster
-    cond = (input < y_center) & ((t_span0 < t) & (t < t_span1))
+    cond = (input < y_center) & span
     y_bot = input.copy()
     y_bot[~cond]=np.nan
     eye_dict["y_bot"] = y_bot
@@ -1837,7 +1849,7 @@ def GET_EYE(
 
     # compute umbral
     x = np.linspace(mu0, mu1, 500)
-    y = input[ ((t_span0 < t) & (t < t_span1)) ]
+    y = input[span]
     
     try:
         pdf = gaussian_kde(y).evaluate(x)
